@@ -1110,6 +1110,32 @@ example : isPayloadEventSaved sp3.pev 13 = false ∧ (13 : Nat) ≠ 0 := by deci
 example : verifyEach env s2 s2.txs = .ok () := by decide
 example : verifyEach env { s2 with txs := mk 15 3 [12] 105 true "" :: s2.txs } (mk 15 3 [12] 105 true "" :: s2.txs) = .err "clock" := by decide
 
+/-! ### Round 3: the transaction counter (last AfterCommit hook of `state.Add`) -/
+
+/-- **the metric counts exactly the admissions**: one `Add` moves `nuts_dag_transactions_total` by exactly what it moves the
+    stored `tx_num` by — +1 when the transaction got in, 0 for a present, refused, or rolled-back one. -/
+theorem transaction_counter_counts_admissions (env : Env) (subs : List Sub) (s : St) (tx : Tx) (p : Option Nat) (n : Nat) :
+    addCounter env subs s tx p n = n + ((add env subs s tx p).1.count - s.count) := by
+  unfold addCounter add
+  cases h1 : phase1 env s tx <;> simp only [Nat.sub_self, Nat.add_zero]
+  unfold phase2
+  split
+  · simp
+  · cases hw : writeBody env subs s tx p with
+    | ok w =>
+      have := writeBody_count hw
+      simp only [afterCommit]
+      omega
+    | err e => simp
+    | panic e => simp
+
+/-- a call that leaves the state as it was (re-add, rejection, rollback) does not count -/
+theorem transaction_counter_unchanged_unless_admitted (env : Env) (subs : List Sub) (s : St) (tx : Tx) (p : Option Nat) (n : Nat)
+    (h : (add env subs s tx p).1 = s) : addCounter env subs s tx p n = n := by
+  rw [transaction_counter_counts_admissions, h]; simp
+
+example : addCounter env subs sp2.st sibling (some 3) 2 = 3 ∧ addCounter env subs sp3.st sibling (some 3) 3 = 3 := by decide
+
 end Round2
 
 end Nuts.C06.Props
